@@ -6,7 +6,7 @@ CONSTANTS
   MaxDim = 2
   Vals = {0, 1, 2}
   Kinds = {"mx"}
-  Depth = 5
+  Depth = 6
 VIEW View
 INVARIANT Shape
 INVARIANT TypeOK
